@@ -54,6 +54,8 @@ pub struct RxCase {
 pub enum Case {
     Receiver(RxCase),
     Sender(PairScenario),
+    /// like Sender, but the data link may lose / duplicate / reorder frames too
+    SenderLossy(PairScenario),
 }
 
 struct AckSink {
@@ -269,13 +271,16 @@ fn run_receiver(c: &RxCase) -> CaseResult {
     CaseResult::ok(near_limit || frames_fed >= 10_000, classes)
 }
 
-fn run_sender(sc: &PairScenario) -> CaseResult {
+fn run_sender(sc: &PairScenario, lossy: bool) -> CaseResult {
     let mut sc = sc.clone();
-    // one-way traffic 0 -> 1 over a loss-free data link; acks (link 1) may be lost / delayed / duplicated
+    // one-way traffic 0 -> 1; acks (link 1) may be lost / delayed / duplicated; the data link is loss-free
+    // unless `lossy`
     for t in sc.ticks.iter_mut() {
         t.acts[1].sends.clear();
     }
-    sc.links[0].fates.clear();
+    if !lossy {
+        sc.links[0].fates.clear();
+    }
     force_identity_sizes(&mut sc);
     sc.normalize();
     let mut sim = SimPair::new(&sc);
@@ -292,8 +297,9 @@ fn run_sender(sc: &PairScenario) -> CaseResult {
             sim.run_tail_progress(step_us, STALL_US, CAP_US)
         }
     };
+    let end_stats = [sim.hc[0].verif_stats(), sim.hc[1].verif_stats()];
     let trace = sim.finish();
-    let mut classes: Vec<&'static str> = vec!["sender_half"];
+    let mut classes: Vec<&'static str> = vec![if lossy { "sender_half_lossy" } else { "sender_half" }];
     let s = 0usize;
     let window = 1u32 << sc.dirs[s].pkt_win_log2;
     let peer_limit = ceil_frag(sc.dirs[s].alloc_limit as usize) as u64;
@@ -366,13 +372,24 @@ fn run_sender(sc: &PairScenario) -> CaseResult {
         }
     }
     if outcome == TailOutcome::Quiescent {
+        // with everything acknowledged and nothing in flight, neither side may still hold allocation
+        if end_stats[0].tx_alloc != 0 || end_stats[1].rx_alloc != 0 {
+            return CaseResult::fail(
+                "oracle:c06:allocation_held_at_quiescence",
+                format!("everything is acknowledged and delivered, yet the sender counts {} bytes as outstanding and the receiver still holds {} bytes of its receive allocation (limit {})", end_stats[0].tx_alloc, end_stats[1].rx_alloc, sc.dirs[s].alloc_limit),
+            );
+        }
         match match_direction(&sc, &trace, 0) {
             Ok(m) => {
                 for sub in trace.subs[0].iter() {
+                    // on a lossy data link only Reliable packets are owed
+                    if lossy && sub.mode != 3 {
+                        continue;
+                    }
                     if sub.mode != 0 && m.sub_delivered[sub.idx as usize].is_none() {
                         return CaseResult::fail(
                             "oracle:c06:packet_discarded",
-                            format!("loss-free data link, yet submission {} (mode {}, {} bytes) was never delivered: discarded by the receiver (allocation {} bytes)?", sub.idx, sub.mode, sub.size, sc.dirs[s].alloc_limit),
+                            format!("data link loss-free or Reliable packet, yet submission {} (mode {}, {} bytes) was never delivered: discarded by the receiver (allocation {} bytes)?", sub.idx, sub.mode, sub.size, sc.dirs[s].alloc_limit),
                         );
                     }
                 }
@@ -399,7 +416,7 @@ impl Check for C06 {
 
     fn strategy(&self, tier: Tier) -> BoxedStrategy<Case> {
         let p = GenParams { max_ticks: tier.pick(150, 400), max_sends: 10, max_frags: tier.pick(6, 20), tail: true, tight_alloc: true, modes: [1, 2, 2, 3], ..GenParams::default() };
-        prop_oneof![1 => rx_case(tier).prop_map(Case::Receiver), 1 => scenario_strategy(&p).prop_map(Case::Sender)].boxed()
+        prop_oneof![2 => rx_case(tier).prop_map(Case::Receiver), 1 => scenario_strategy(&p).prop_map(Case::Sender), 1 => scenario_strategy(&p).prop_map(Case::SenderLossy)].boxed()
     }
 
     fn cases(&self, tier: Tier) -> u64 {
@@ -415,7 +432,7 @@ impl Check for C06 {
     }
 
     fn rule(&self) -> String {
-        "two case kinds. Receiver: a lone receiving HalfConnection (limit 1 B .. 4 MB, windows 2^k) is fed hostile data-frame streams - datagrams with packet ids inside / at the edge of / outside the window, claimed fragment counts up to 65536, packets that never complete, arbitrary parent leads, frame ids spaced 1 / 33 / 64 / thousands apart (to defeat ack-group merging), floods of up to 6*10^3 (quick) or 4*10^5 (thorough) frames, sync frames, with receive() and step()+flush() called at generated points or never. Oracle after every op (every 64 frames inside a flood): live heap bytes of the case's thread minus the post-construction baseline <= max_receive_alloc rounded up to a fragment + 0.25% (reassembly bitmaps) + 160 KiB (bookkeeping bounded by protocol constants: a frame window's worth of ack groups). Sender: one-way SimPair transfer over a loss-free data link with lossy / delayed / duplicated acks and generated peer limits; from the wire alone, packets emitted beyond the newest packet-window base handed to the sender number <= window and sum (fragment-rounded) <= the peer's rounded limit; the receiver's allocation counter never exceeds its limit and, at quiescence, every non-TimeSensitive packet was delivered (none discarded for lack of memory). Non-trivial = receiver: allocation counter came within one fragment of the limit or >= 10^4 frames were fed; sender: the sender was blocked by window or allocation at least once.".into()
+        "two case kinds. Receiver: a lone receiving HalfConnection (limit 1 B .. 4 MB, windows 2^k) is fed hostile data-frame streams - datagrams with packet ids inside / at the edge of / outside the window, claimed fragment counts up to 65536, packets that never complete, arbitrary parent leads, frame ids spaced 1 / 33 / 64 / thousands apart (to defeat ack-group merging), floods of up to 6*10^3 (quick) or 4*10^5 (thorough) frames, sync frames, with receive() and step()+flush() called at generated points or never. Oracle after every op (every 64 frames inside a flood): live heap bytes of the case's thread minus the post-construction baseline <= max_receive_alloc rounded up to a fragment + 0.25% (reassembly bitmaps) + 160 KiB (bookkeeping bounded by protocol constants: a frame window's worth of ack groups). Sender: one-way SimPair transfer over a loss-free data link with lossy / delayed / duplicated acks and generated peer limits; from the wire alone, packets emitted beyond the newest packet-window base handed to the sender number <= window and sum (fragment-rounded) <= the peer's rounded limit; the receiver's allocation counter never exceeds its limit and, at quiescence, every non-TimeSensitive packet was delivered (none discarded for lack of memory) and neither side still counts any allocation; a lossy variant adds loss / duplication / reordering on the data link (partially received packets that the window passes) and owes every Reliable packet. Non-trivial = receiver: allocation counter came within one fragment of the limit or >= 10^4 frames were fed; sender: the sender was blocked by window or allocation at least once.".into()
     }
 
     fn assumptions(&self) -> Vec<String> {
@@ -432,7 +449,8 @@ impl Check for C06 {
     fn run(&self, case: &Case) -> CaseResult {
         match case {
             Case::Receiver(c) => run_receiver(c),
-            Case::Sender(sc) => run_sender(sc),
+            Case::Sender(sc) => run_sender(sc, false),
+            Case::SenderLossy(sc) => run_sender(sc, true),
         }
     }
 }
